@@ -6,36 +6,27 @@ Require Import KV.CrossWindow.Model KV.CrossWindow.Spec KV.CrossWindow.BasicProo
 Open Scope N_scope.
 
 (* ---- seeding of the tag store ----------------------------------------------------------------- *)
-Definition seed_step (tg : tagstore) (x : triple * N) : tagstore :=
-  if snd x <? INF then set_tag (fst x) (snd x) tg else tg.
+Definition seed_step (l : list (triple * N)) (tg : tagstore) (f : triple) : tagstore :=
+  match old_max l f with Some e => set_tag f e tg | None => tg end.
 
-Lemma seed_tags_fold : forall l, seed_tags l = fold_left seed_step l [].
-Proof. reflexivity. Qed.
-
-Lemma seed_unchanged : forall l tg f,
-  (forall e, In (f, e) l -> INF <= e) -> get_tag (fold_left seed_step l tg) f = get_tag tg f.
+Lemma seed_fold_notin : forall l ks tg f,
+  ~ In f ks -> get_tag (fold_left (seed_step l) ks tg) f = get_tag tg f.
 Proof.
-  induction l as [|[g e0] l IH]; intros tg f H; cbn [fold_left]; [reflexivity|].
-  rewrite IH by (intros e He; apply H; right; exact He).
-  unfold seed_step. cbn [fst snd]. destruct (e0 <? INF) eqn:E; [|reflexivity].
-  apply N.ltb_lt in E. apply get_set_other. intros ->. specialize (H e0 (or_introl eq_refl)). lia.
+  intros l. induction ks as [|k ks IH]; intros tg f Hn; cbn [fold_left]; [reflexivity|].
+  rewrite IH by (intros H; apply Hn; right; exact H).
+  unfold seed_step. destruct (old_max l k); [|reflexivity].
+  apply get_set_other. intros ->. apply Hn. left. reflexivity.
 Qed.
 
-Lemma seed_const : forall l tg f e,
-  e < INF -> (In (f, e) l \/ get_tag tg f = e) -> (forall e', In (f, e') l -> e' = e) ->
-  get_tag (fold_left seed_step l tg) f = e.
+Lemma seed_fold_in : forall l ks tg f,
+  NoDup ks -> In f ks ->
+  get_tag (fold_left (seed_step l) ks tg) f = match old_max l f with Some e => e | None => get_tag tg f end.
 Proof.
-  induction l as [|[g e0] l IH]; intros tg f e He Hor Hu; cbn [fold_left].
-  - destruct Hor as [[] | H]. exact H.
-  - apply IH; [exact He | | intros e' H'; apply Hu; right; exact H'].
-    unfold seed_step. cbn [fst snd].
-    destruct (triple_dec g f) as [-> | Hne].
-    + right. rewrite (Hu e0 (or_introl eq_refl)).
-      assert (e <? INF = true) as -> by (apply N.ltb_lt; exact He). apply get_set_same.
-    + destruct Hor as [[Hh | Ht] | Hg].
-      * injection Hh as -> ->. contradiction Hne. reflexivity.
-      * left. exact Ht.
-      * right. destruct (e0 <? INF); [rewrite get_set_other by exact Hne|]; exact Hg.
+  intros l. induction ks as [|k ks IH]; intros tg f Hnd Hin; [destruct Hin|]. cbn [fold_left].
+  inversion Hnd as [|? ? Hk Hks]; subst. destruct Hin as [-> | Hin].
+  - rewrite seed_fold_notin by exact Hk. unfold seed_step. destruct (old_max l f); [apply get_set_same | reflexivity].
+  - rewrite (IH _ f Hks Hin). destruct (old_max l f); [reflexivity|].
+    unfold seed_step. destruct (old_max l k); [|reflexivity]. apply get_set_other. intros ->. contradiction.
 Qed.
 
 (* ---- d_old, old_max, d_new ---------------------------------------------------------------------- *)
@@ -98,6 +89,26 @@ Proof.
       * right. intros e [Hh | Ht]; [injection Hh as -> ->; contradiction Hne; reflexivity | apply (Hn e Ht)].
 Qed.
 
+(* the seeded tag of a triple is the largest expiry listed for it (INF when it is not listed) *)
+Lemma seed_tags_get : forall l f,
+  get_tag (seed_tags l) f = match old_max l f with Some e => e | None => INF end.
+Proof.
+  intros l f. unfold seed_tags. change (fun tg f0 => match old_max l f0 with Some e => set_tag f0 e tg | None => tg end) with (seed_step l).
+  destruct (old_max l f) as [m|] eqn:E.
+  - rewrite seed_fold_in; [rewrite E; reflexivity | apply dedup_NoDup|].
+    apply (proj2 (dedup_In _ _)). destruct (old_max_Some _ _ _ E) as [Hin _]. apply in_map_iff. exists (f, m). auto.
+  - rewrite seed_fold_notin; [reflexivity|]. intros H. apply (proj1 (dedup_In _ _)) in H. apply in_map_iff in H.
+    destruct H as ([g e] & <- & Hin). apply (old_max_None _ _ E e Hin).
+Qed.
+
+Lemma seed_tags_listed : forall l f e,
+  In (f, e) l -> In (f, get_tag (seed_tags l) f) l /\ forall e', In (f, e') l -> e' <= get_tag (seed_tags l) f.
+Proof.
+  intros l f e Hin. rewrite seed_tags_get. destruct (old_max l f) as [m|] eqn:E.
+  - apply old_max_Some. exact E.
+  - exfalso. apply (old_max_None _ _ E e Hin).
+Qed.
+
 (* ---- general facts about Der and is_E ------------------------------------------------------------- *)
 Lemma is_E_unique : forall P base f e e', is_E P base f e -> is_E P base f e' -> e = e'.
 Proof. intros P base f e e' [D1 M1] [D2 M2]. specialize (M1 _ D2). specialize (M2 _ D1). lia. Qed.
@@ -135,17 +146,13 @@ Section Incr.
   Hypothesis Hwf : wf_rules P = true.
   Hypothesis Hnow : now < INF.
   Hypothesis Halive : alive_base base' now.
-  Hypothesis Hfun : functional_base base'.
   (* carried-over entries that are still alive have a derivation from the new base that lasts as long *)
   Hypothesis Hold_sound : forall c f e, In (c, f, e) old -> now < e -> Der P base' e f.
-  Hypothesis Hold_fun : forall c f e c' e', In (c, f, e) old -> In (c', f, e') old -> now < e -> now < e' -> e = e'.
   (* the carried-over entries are closed under the rules at every threshold beyond now *)
   Hypothesis Hold_closed : forall r sigma c0 t,
     In r P -> In c0 (concl r) ->
     (forall p, In p (prem r) -> exists c e, In (c, subst_pat sigma p, e) old /\ t <= e) ->
     now < t -> exists c e, In (c, subst_pat sigma c0, e) old /\ t <= e.
-  (* a fact listed as static now was not carried over with a finite expiry (set_tag skips u64::MAX) *)
-  Hypothesis Hinf : forall c f e, In (c, f, e) old -> now < e -> In (f, INF) base' -> e = INF.
 
   Definition dO := d_old_of old now.
   Definition dN := d_new_of dO base'.
@@ -157,12 +164,6 @@ Section Incr.
   Lemma Hcap' : forall f e, In (f, e) base' -> e <= INF.
   Proof. intros f e H. destruct (Halive f e H). lia. Qed.
 
-  Lemma dO_fun : forall f e e', In (f, e) dO -> In (f, e') dO -> e = e'.
-  Proof.
-    intros f e e' H H'. apply d_old_In in H. apply d_old_In in H'.
-    destruct H as (c & H & Hl). destruct H' as (c' & H' & Hl'). eapply Hold_fun; eauto.
-  Qed.
-
   Lemma dO_cap : forall f e, In (f, e) dO -> now < e /\ e <= INF /\ Der P base' e f.
   Proof.
     intros f e H. apply d_old_In in H. destruct H as (c & H & Hl).
@@ -170,11 +171,8 @@ Section Incr.
     eapply Der_le_INF; [exact Hwf | exact Hcap' | exact Hd].
   Qed.
 
-  Lemma dN_fun : forall f e e', In (f, e) dN -> In (f, e') dN -> e = e'.
-  Proof.
-    intros f e e' H H'. apply d_new_In in H. apply d_new_In in H'. destruct H as [H _]. destruct H' as [H' _].
-    eapply Hfun; eauto.
-  Qed.
+  Lemma dN_base : forall f e, In (f, e) dN -> In (f, e) base'.
+  Proof. intros f e H. apply d_new_In in H. tauto. Qed.
 
   Lemma F0_In : forall f, In f F0 <-> (exists e, In (f, e) dO) \/ (exists e, In (f, e) dN).
   Proof.
@@ -183,80 +181,66 @@ Section Incr.
     - intros [(e & H) | (e & H)]; [left | right]; exists (f, e); auto.
   Qed.
 
-  Lemma tg0_new : forall f e, In (f, e) dN -> get_tag tg0 f = e.
+  (* the seeded tag of a start fact: one of its listed expiries, and the largest of them *)
+  Lemma tg0_spec : forall f, In f F0 ->
+    In (f, get_tag tg0 f) (dO ++ dN) /\ forall e, In (f, e) (dO ++ dN) -> e <= get_tag tg0 f.
   Proof.
-    intros f e H. unfold tg0. rewrite seed_tags_fold, fold_left_app.
-    pose proof H as H0. apply d_new_In in H0. destruct H0 as [Hb Hcond].
-    destruct (Halive f e Hb) as [Hl Hc].
-    destruct (N.eq_dec e INF) as [-> | Hne].
-    - rewrite seed_unchanged by (intros e' H'; rewrite (dN_fun _ _ _ H' H); lia).
-      rewrite seed_unchanged; [reflexivity|].
-      intros e' H'. pose proof H' as H''. apply d_old_In in H''. destruct H'' as (c & Ho & Hlt).
-      rewrite (Hinf c f e' Ho Hlt Hb). lia.
-    - apply seed_const; [lia | left; exact H | intros e' H'; apply (dN_fun _ _ _ H' H)].
-  Qed.
-
-  Lemma tg0_old : forall f e, In (f, e) dO -> (forall e', ~ In (f, e') dN) -> get_tag tg0 f = e.
-  Proof.
-    intros f e H Hn. unfold tg0. rewrite seed_tags_fold, fold_left_app.
-    rewrite seed_unchanged by (intros e' H'; exfalso; apply (Hn e' H')).
-    destruct (dO_cap f e H) as (_ & Hc & _).
-    destruct (N.eq_dec e INF) as [-> | Hne].
-    - apply seed_unchanged. intros e' H'. rewrite (dO_fun _ _ _ H' H). lia.
-    - apply seed_const; [lia | left; exact H | intros e' H'; apply (dO_fun _ _ _ H' H)].
-  Qed.
-
-  Lemma tg0_ge_old : forall f e, In (f, e) dO -> e <= get_tag tg0 f.
-  Proof.
-    intros f e H. destruct (in_fst_dec dN f) as [(e' & H') | Hn].
-    - rewrite (tg0_new f e' H'). apply d_new_In in H'. destruct H' as [_ [Hnone | (eo & Ho & Hlt)]].
-      + exfalso. apply (old_max_None _ _ Hnone e H).
-      + destruct (old_max_Some _ _ _ Ho) as [_ Hmax]. specialize (Hmax e H). lia.
-    - rewrite (tg0_old f e H Hn). lia.
+    intros f Hf. apply F0_In in Hf. unfold tg0.
+    destruct Hf as [(e & H) | (e & H)]; apply (seed_tags_listed (dO ++ dN) f e); apply in_or_app; auto.
   Qed.
 
   Lemma incr_LInv : LInv P base' F0 tg0 (map fst dN).
   Proof.
     split; [|split; [|split]].
     - intros f Hf. apply in_map_iff in Hf. destruct Hf as ([g e] & <- & H). apply F0_In. right. exists e. exact H.
-    - intros f Hf. apply F0_In in Hf.
-      destruct (in_fst_dec dN f) as [(e' & H') | Hn].
-      + rewrite (tg0_new f e' H'). apply d_new_In in H'. destruct H' as [Hb _].
-        split; [apply (Hpos' f e' Hb) | eapply Der_base; [exact Hb | lia]].
-      + destruct Hf as [(e & H) | (e & H)]; [|exfalso; apply (Hn e H)].
-        rewrite (tg0_old f e H Hn). destruct (dO_cap f e H) as (Hl & _ & Hd). split; [lia | exact Hd].
+    - intros f Hf. destruct (tg0_spec f Hf) as [Hin _]. apply in_app_or in Hin. destruct Hin as [Hin | Hin].
+      + destruct (dO_cap _ _ Hin) as (Hl & _ & Hd). split; [lia | exact Hd].
+      + apply dN_base in Hin. split; [apply (Hpos' _ _ Hin) | eapply Der_base; [exact Hin | lia]].
     - intros f e Hb.
       destruct (in_fst_dec dN f) as [(e' & H') | Hn].
-      + split; [apply F0_In; right; exists e'; exact H'|].
-        rewrite (tg0_new f e' H'). pose proof H' as H''. apply d_new_In in H''. destruct H'' as [Hb' _].
-        rewrite (Hfun f e e' Hb Hb'). lia.
+      + assert (In (f, e) dN \/ ~ In (f, e) dN) as [Hd | Hd].
+        { destruct (old_max dO f) as [eo|] eqn:Eo.
+          - destruct (N.lt_ge_cases eo e) as [Hlt | Hge].
+            + left. apply d_new_In. split; [exact Hb|]. right. exists eo. auto.
+            + right. intros H. apply d_new_In in H. destruct H as [_ [H | (eo' & H & Hlt)]]; [congruence|]. rewrite Eo in H. injection H as <-. lia.
+          - left. apply d_new_In. split; [exact Hb|]. left. exact Eo. }
+        * assert (In f F0) as HF by (apply F0_In; right; exists e; exact Hd).
+          split; [exact HF|]. destruct (tg0_spec f HF) as [_ Hmax]. apply Hmax. apply in_or_app. right. exact Hd.
+        * (* not new: an old entry is at least as large *)
+          destruct (old_max dO f) as [eo|] eqn:Eo.
+          -- destruct (old_max_Some _ _ _ Eo) as [Hin _].
+             assert (In f F0) as HF by (apply F0_In; left; exists eo; exact Hin).
+             split; [exact HF|]. destruct (tg0_spec f HF) as [_ Hmax].
+             assert (e <= eo).
+             { destruct (N.lt_ge_cases eo e) as [Hlt | Hge]; [|exact Hge]. exfalso. apply Hd. apply d_new_In. split; [exact Hb|]. right. exists eo. auto. }
+             specialize (Hmax eo (in_or_app _ _ _ (or_introl Hin))). lia.
+          -- exfalso. apply Hd. apply d_new_In. split; [exact Hb|]. left. exact Eo.
       + destruct (old_max dO f) as [eo|] eqn:Eo.
-        * destruct (old_max_Some _ _ _ Eo) as [Hin Hmax].
-          split; [apply F0_In; left; exists eo; exact Hin|].
-          rewrite (tg0_old f eo Hin Hn).
-          destruct (N.lt_ge_cases eo e) as [Hlt | Hge]; [|exact Hge].
+        * destruct (old_max_Some _ _ _ Eo) as [Hin _].
+          assert (In f F0) as HF by (apply F0_In; left; exists eo; exact Hin).
+          split; [exact HF|]. destruct (tg0_spec f HF) as [_ Hmax].
+          specialize (Hmax eo (in_or_app _ _ _ (or_introl Hin))).
+          destruct (N.lt_ge_cases eo e) as [Hlt | Hge]; [|lia].
           exfalso. apply (Hn e). apply d_new_In. split; [exact Hb|]. right. exists eo. auto.
         * exfalso. apply (Hn e). apply d_new_In. split; [exact Hb|]. left. exact Eo.
     - intros gs f (r & sigma & c0 & Hr & Egs & Hc0 & Ef & HgsF).
       destruct (some_in_dec gs (map fst dN)) as [Hsome | Hnone]; [left; exact Hsome | right].
-      assert (forall g, In g gs -> exists e, In (g, e) dO /\ get_tag tg0 g = e) as Hg.
-      { intros g Hgin. pose proof (HgsF g Hgin) as HF. apply F0_In in HF.
-        assert (forall e', ~ In (g, e') dN) as Hn.
-        { intros e' H'. apply (Hnone g Hgin). apply in_map_iff. exists (g, e'). auto. }
-        destruct HF as [(e & H) | (e & H)]; [|exfalso; apply (Hn e H)].
-        exists e. split; [exact H | apply tg0_old; assumption]. }
+      assert (forall g, In g gs -> In (g, get_tag tg0 g) dO) as Hg.
+      { intros g Hgin. destruct (tg0_spec g (HgsF g Hgin)) as [Hin _]. apply in_app_or in Hin.
+        destruct Hin as [Hin | Hin]; [exact Hin|]. exfalso. apply (Hnone g Hgin). apply in_map_iff. exists (g, get_tag tg0 g). auto. }
       set (t := min_tags tg0 gs).
       assert (now < t) as Ht.
       { assert (now + 1 <= t) as H1; [|lia]. apply min_tags_spec. split; [lia|].
-        intros g Hgin. destruct (Hg g Hgin) as (e & He & ->). destruct (dO_cap g e He) as (Hl & _). lia. }
+        intros g Hgin. destruct (dO_cap g _ (Hg g Hgin)) as (Hl & _). lia. }
       destruct (Hold_closed r sigma c0 t Hr Hc0) as (c & e & Hin & Hle); [|exact Ht|].
       { intros p Hp. assert (In (subst_pat sigma p) gs) as Hgin by (rewrite Egs; apply in_map; exact Hp).
-        destruct (Hg _ Hgin) as (e & He & Etag). apply d_old_In in He. destruct He as (c & He & _).
-        exists c, e. split; [exact He|]. rewrite <- Etag. apply min_tags_le. exact Hgin. }
+        pose proof (Hg _ Hgin) as He. apply d_old_In in He. destruct He as (c & He & _).
+        exists c, (get_tag tg0 (subst_pat sigma p)). split; [exact He|]. apply min_tags_le. exact Hgin. }
       rewrite <- Ef in Hin.
       assert (In (f, e) dO) as HdO by (apply d_old_In; exists c; split; [exact Hin | lia]).
-      split; [apply F0_In; left; exists e; exact HdO|].
-      pose proof (tg0_ge_old f e HdO). fold t. lia.
+      assert (In f F0) as HF by (apply F0_In; left; exists e; exact HdO).
+      split; [exact HF|]. destruct (tg0_spec f HF) as [_ Hmax].
+      specialize (Hmax e (in_or_app _ _ _ (or_introl HdO))). fold t. lia.
   Qed.
 
   Lemma is_E_alive : forall f e, is_E P base' f e -> now < e.
@@ -312,27 +296,22 @@ Qed.
    of C12_step *)
 Definition old_ok (P : list rule) (base' : list (triple * N)) (old : state) (now' : N) : Prop :=
   (forall c f e, In (c, f, e) old -> now' < e -> Der P base' e f) /\
-  (forall c f e c' e', In (c, f, e) old -> In (c', f, e') old -> now' < e -> now' < e' -> e = e') /\
   (forall r sigma c0 t,
      In r P -> In c0 (concl r) ->
      (forall p, In p (prem r) -> exists c e, In (c, subst_pat sigma p, e) old /\ t <= e) ->
-     now' < t -> exists c e, In (c, subst_pat sigma c0, e) old /\ t <= e) /\
-  (forall c f e, In (c, f, e) old -> now' < e -> In (f, INF) base' -> e = INF).
+     now' < t -> exists c e, In (c, subst_pat sigma c0, e) old /\ t <= e).
 
 Lemma step_old_ok : forall P rt base base' old now now',
   wf_rules P = true -> routed_rules rt P = true ->
   now <= now' ->
-  (forall f e, In (f, e) base -> e <= INF) ->
-  base_consistent base base' now' -> static_stable base base' ->
+  base_consistent base base' now' ->
   E_state P base rt now old ->
   old_ok P base' old now'.
 Proof.
-  intros P rt base base' old now now' Hwf Hrt Hle Hcap Hcons Hstat [HE1 HE2].
-  split; [|split; [|split]].
+  intros P rt base base' old now now' Hwf Hrt Hle Hcons [HE1 HE2].
+  split.
   - intros c f e Hin Hlt. destruct (HE1 c f e Hin) as (_ & _ & [Hd _]).
     eapply Der_transfer; eauto.
-  - intros c f e c' e' Hin Hin' _ _. destruct (HE1 c f e Hin) as (_ & _ & E1). destruct (HE1 c' f e' Hin') as (_ & _ & E2).
-    eapply is_E_unique; eauto.
   - intros r sigma c0 t Hr Hc0 Hprem Ht.
     assert (Der P base t (subst_pat sigma c0)) as Hd.
     { apply Der_rule with (r := r); [exact Hr | | exact Hc0]. apply Forall_forall. intros g Hg.
@@ -341,45 +320,39 @@ Proof.
     destruct (routed_concl rt P r c0 sigma Hrt Hr Hc0) as (k & Hk).
     destruct (HE2 t _ k Hd) as (e & Hin); [lia | exact Hk|].
     exists k, e. split; [exact Hin|]. destruct (HE1 k _ e Hin) as (_ & _ & [_ Hmax]). apply Hmax. exact Hd.
-  - intros c f e Hin Hlt Hs. destruct (HE1 c f e Hin) as (_ & _ & [Hd Hmax]).
-    assert (e <= INF) by (eapply Der_le_INF; eauto).
-    assert (INF <= e); [|lia]. apply Hmax. eapply Der_base; [apply Hstat; exact Hs | lia].
 Qed.
 
 Lemma empty_old_ok : forall P base' now', wf_rules P = true -> old_ok P base' [] now'.
 Proof.
-  intros P base' now' Hwf. split; [|split; [|split]].
+  intros P base' now' Hwf. split.
   - intros c f e [].
-  - intros c f e c' e' [].
   - intros r sigma c0 t Hr Hc0 Hprem Ht. exfalso.
     pose proof (wf_rule_nonempty r (wf_rules_In _ _ Hwf Hr)) as Hne.
     destruct (prem r) as [|p ps]; [contradiction Hne; reflexivity|].
     destruct (Hprem p (or_introl eq_refl)) as (c & e & [] & _).
-  - intros c f e [].
 Qed.
 
 Theorem step_base : forall fuel P rt rt' base base' old now now' st',
   wf_rules P = true -> routed_rules rt P = true ->
   now <= now' -> now' < INF ->
-  (forall f e, In (f, e) base -> e <= INF) ->
-  alive_base base' now' -> functional_base base' ->
-  base_consistent base base' now' -> static_stable base base' ->
+  alive_base base' now' ->
+  base_consistent base base' now' ->
   E_state P base rt now old ->
   incr_core fuel P rt' base' old now' = Some st' ->
   E_state P base' rt' now' st'.
 Proof.
-  intros fuel P rt rt' base base' old now now' st' Hwf Hrt Hle Hnow Hcap Halive Hfun Hcons Hstat HE H.
-  destruct (step_old_ok P rt base base' old now now' Hwf Hrt Hle Hcap Hcons Hstat HE) as (O1 & O2 & O3 & O4).
+  intros fuel P rt rt' base base' old now now' st' Hwf Hrt Hle Hnow Halive Hcons HE H.
+  destruct (step_old_ok P rt base base' old now now' Hwf Hrt Hle Hcons HE) as (O1 & O2).
   eapply incr_core_E; eassumption.
 Qed.
 
 (* the first evaluation (no carried-over state): from-scratch with expiries *)
 Theorem first_base : forall fuel P rt' base' now' st',
-  wf_rules P = true -> now' < INF -> alive_base base' now' -> functional_base base' ->
+  wf_rules P = true -> now' < INF -> alive_base base' now' ->
   incr_core fuel P rt' base' [] now' = Some st' ->
   E_state P base' rt' now' st'.
 Proof.
-  intros fuel P rt' base' now' st' Hwf Hnow Halive Hfun H.
-  destruct (empty_old_ok P base' now' Hwf) as (O1 & O2 & O3 & O4).
+  intros fuel P rt' base' now' st' Hwf Hnow Halive H.
+  destruct (empty_old_ok P base' now' Hwf) as (O1 & O2).
   eapply incr_core_E; eassumption.
 Qed.
